@@ -261,7 +261,7 @@ func drawC17(t *rapid.T) C17Case {
 func TestC17(t *testing.T) {
 	rec := obs.New("C17")
 	defer rec.Flush(true)
-	rec.SetExtra("rule", "rapid derivation histories over a growing family of tokens under one root key: build / append / seal / serialize+unmarshal on any live token, block content drawn from a pool of 1-2 contents so identical content is signed repeatedly on the same and on different tokens, one deterministic random stream that never repeats, delivered whole or in short reads of 1 / 5 / 31 bytes; operations include append-last (deep chains) and fan-out (the same content appended 8 times to one parent). Oracle after every step, for every live token: one identifier per block, parent's identifiers are a prefix of the child's, identifier i equals the signature the independent reader finds on block i, identifiers of different signing operations are pairwise different over the whole history, and the parent is unchanged. Non-trivial = identical content signed at least twice, or a chain of >= 3 blocks; distinct by history.")
+	rec.SetExtra("rule", "rapid derivation histories over a growing family of tokens under one root key: build / append / seal / serialize+unmarshal on any live token (the byte buffer handed to Unmarshal is overwritten afterwards, as a caller reusing its buffer would), block content drawn from a pool of 1-2 contents so identical content is signed repeatedly on the same and on different tokens, one deterministic random stream that never repeats, delivered whole or in short reads of 1 / 5 / 31 bytes; operations include append-last (deep chains) and fan-out (the same content appended 8 times to one parent). Oracle after every step, for every live token: one identifier per block, parent's identifiers are a prefix of the child's, identifier i equals the signature the independent reader finds on block i, identifiers of different signing operations are pairwise different over the whole history, and the parent is unchanged. Non-trivial = identical content signed at least twice, or a chain of >= 3 blocks; distinct by history.")
 	rec.SetExtra("assumptions", []string{"fresh randomness is modelled by a counter-mode SHA-256 stream (never repeats within a history)"})
 	harness.RunWith(t, harness.Spec[C17Case]{ID: "C17", Draw: drawC17, Check: checkC17}, rec)
 }
